@@ -14,7 +14,7 @@
 (*   c  classification labels computed by the spec (wall class, fold, ...)   *)
 (*   v  failed clauses, << <<clause, expected>>, ... >>; empty = conforming  *)
 (***************************************************************************)
-EXTENDS OpsRange, OpsModifiers, OpsCalendar, OpsDuration, TLCExt
+EXTENDS OpsRange, OpsModifiers, OpsCalendar, OpsDuration, IsoForms, TLCExt
 
 T == JsonDeserialize(IOEnv.PV_TRACE)
 VARIABLES l, nbad
@@ -24,6 +24,9 @@ V(cl, ok, exp) == IF ok THEN <<>> ELSE << <<cl, exp>> >>
 R(c, v) == [c |-> c, v |-> v]
 B(b) == IF b THEN "1" ELSE "0"
 N(n) == IF n = 0 THEN "0" ELSE IF n = 1 THEN "1" ELSE "n"
+
+ArrClause(name, arr, n, F(_)) == LET k == FirstDiff(arr, n, F) IN
+   IF k = 0 THEN <<>> ELSE << <<name, <<k, IF k <= n THEN F(k) ELSE -1>> >> >>
 
 \* logged DateTime `post` against the expected abstract value `exp`; cls = expected class name
 CmpDTc(post, exp, cls) ==
@@ -448,14 +451,83 @@ J_contains(e) ==
        IF e.post.k = "exc" THEN << <<"unexpected-exception", e.post.names>> >>
        ELSE V("contains", e.post.v = want, want))
 
+\* ---- C07 -----------------------------------------------------------------------------
+IsValueError(p) == p.k = "exc" /\ "ValueError" \in ToSet(p.names)
+Aware(p) == p.z.n # "naive"
+\* a native / pendulum result against the denoted value v
+CmpParsed(p, v, cls, tag) ==
+  IF p.k = "exc" THEN << <<tag \o "-rejects-valid", p.names>> >>
+  ELSE CASE v.kind = "date" -> (IF p.k # "date" THEN << <<tag \o "-kind", p.k>> >>
+                                ELSE V(tag \o "-class", p.cls = cls.date, cls.date) \o V(tag \o "-date", p.w = v.d, v.d))
+         [] v.kind = "time" -> (IF p.k # "time" THEN << <<tag \o "-kind", p.k>> >>
+                                ELSE V(tag \o "-class", p.cls = cls.time, cls.time) \o V(tag \o "-time", p.w = v.t, v.t))
+         [] v.kind = "datetime" ->
+              (IF p.k # "dt" THEN << <<tag \o "-kind", p.k>> >>
+               ELSE V(tag \o "-class", p.cls = cls.dt, cls.dt)
+                    \o V(tag \o "-fields", p.w = <<v.d[1], v.d[2], v.d[3], v.t[1], v.t[2], v.t[3], v.t[4]>>, <<v.d, v.t>>)
+                    \o (IF v.hasoff THEN V(tag \o "-offset", Aware(p) /\ p.off = v.off, v.off) ELSE <<>>))
+NativeCls == [date |-> "date", time |-> "time", dt |-> "datetime"]
+PendCls == [date |-> "Date", time |-> "Time", dt |-> "DateTime"]
+J_iso_parse(e) ==
+  LET f == e.a.form  p == e.post
+      txt == RenderForm(f)
+      v == DenoteForm(f)
+      r == Recognise(txt)
+      lab == <<f.dk, f.tk, B(f.ext), N(Len(f.fd)), f.ok, B(e.a.exact), B(v.ok), (IF e.a.tz.n = "UTC" THEN "utc" ELSE "tz"),
+               "week0", B(f.dk \in {"week", "weekd"} /\ (f.wk = 0 \/ (f.dk = "weekd" /\ f.wd = 0)))>>
+  IN R(lab,
+       V("form-text", txt = e.a.text, txt)
+       \o V("spec-generator-recogniser", r = v, "Recognise(RenderForm(f)) = DenoteForm(f)")
+       \o (IF ~FormTimeValid(f) \/ f.dk \in {"y", "ym"} THEN <<>>   \* rejection is demanded of impossible DATES only;
+                                                                     \* reduced-precision dates are not among the listed forms
+           ELSE IF ~v.ok
+           THEN V("top-must-reject", IsValueError(p.top), "ValueError") \o V("py-must-reject", IsValueError(p.py), "ValueError")
+                \o V("rs-must-reject", IsValueError(p.rs), "ValueError")
+           ELSE CmpParsed(p.py, v, NativeCls, "py") \o CmpParsed(p.rs, v, NativeCls, "rs")
+                \o (IF e.a.exact THEN CmpParsed(p.top, v, PendCls, "top")
+                                      \o (IF v.kind = "datetime" /\ ~v.hasoff /\ p.top.k = "dt"
+                                          THEN V("top-zone", ZRef(p.top.z) = ZRef(e.a.tz), e.a.tz) ELSE <<>>)
+                    ELSE IF v.kind = "time" THEN <<>>          \* completed from the current date: not judged
+                    ELSE LET vv == IF v.kind = "date" THEN [v EXCEPT !.kind = "datetime"] ELSE v IN
+                         CmpParsed(p.top, vv, PendCls, "top")
+                         \o (IF ~v.hasoff /\ p.top.k = "dt" THEN V("top-zone", ZRef(p.top.z) = ZRef(e.a.tz), e.a.tz) ELSE <<>>))))
+\* a whole year of dates in one textual form: parsed[k] must be day k of the year
+J_iso_year_scan(e) ==
+  LET y == e.a.y  n == DaysInYear(y)  p == e.post
+      Exp(k) == LET t == YMD(Ord(y, 1, 1) + k - 1) IN <<t[1], t[2], t[3]>>
+      f0 == [dk |-> "none", ext |-> e.a.ext, y |-> y, m |-> 1, d |-> 1, n |-> 1, wk |-> 1, wd |-> 1, tk |-> "none", h |-> 0,
+             mi |-> 0, s |-> 0, fd |-> <<>>, fsep |-> cDot, sep |-> cT, ok |-> "none", osg |-> 1, oh |-> 0, om |-> 0]
+      FormOf(k) == LET t == Exp(k)  c == IsoCal(Ord(y, 1, 1) + k - 1) IN
+                   CASE e.a.dk = "cal" -> [f0 EXCEPT !.dk = "cal", !.m = t[2], !.d = t[3]]
+                     [] e.a.dk = "ord" -> [f0 EXCEPT !.dk = "ord", !.n = k]
+                     [] e.a.dk = "weekd" -> [f0 EXCEPT !.dk = "weekd", !.y = c[1], !.wk = c[2], !.wd = c[3]]
+  IN R(<<e.a.dk, B(e.a.ext), e.a.which, B(IsLeap(y))>>,
+       ArrClause("parsed-date", p.v, n, Exp)
+       \o V("sample-text", \A i \in 1..Len(p.samples) : p.samples[i][2] = RenderForm(FormOf(p.samples[i][1])), "RenderForm"))
+\* parse() inverts the renderers (UTC / fixed-offset DateTimes)
+J_iso_roundtrip(e) ==
+  LET s == Src(e)  p == e.post  off == OffOf(s)  fmt == e.a.fmt
+      want == CASE fmt = "isoformat" -> IsoFormat(s.w, TRUE, off, cT)
+                [] fmt = "str" -> IsoFormat(s.w, TRUE, off, cSp)
+                [] fmt = "iso8601" -> Iso8601String(s.w, TRUE, off, s.z.n = "UTC")
+                [] fmt = "rfc3339" -> IsoFormat(s.w, TRUE, off, cT)
+                [] fmt \in {"atom", "w3c"} -> AtomString(s.w, off)
+      secOnly == fmt \in {"atom", "w3c"}
+      ww == IF secOnly THEN <<s.w[1], s.w[2], s.w[3], s.w[4], s.w[5], s.w[6], 0>> ELSE s.w
+  IN R(<<fmt, B(s.w[7] # 0), B(off % 60 # 0), (IF s.z.n = "" THEN "fixed" ELSE "named")>>,
+       IF off % 60 # 0 /\ secOnly THEN <<>>            \* these formats cannot carry seconds of offset
+       ELSE V("rendering", p.text = want, want)
+            \o (IF p.parsed.k = "exc" THEN << <<"parse-rejects-own-rendering", p.parsed.names>> >>
+                ELSE IF p.parsed.k # "dt" THEN << <<"kind", p.parsed.k>> >>
+                ELSE V("class", p.parsed.cls = "DateTime", "DateTime") \o V("fields", p.parsed.w = ww, ww)
+                     \o V("offset", p.parsed.off = off, off)))
+
 \* ---- C15 -----------------------------------------------------------------------------
 J_year_prims(e) == LET y == e.a.y IN
    R(<<B(IsLeap(y)), B(IsLongYear(y))>>,
      V("is_leap", e.post.v[1] = B01(IsLeap(y)), B01(IsLeap(y)))
      \o V("is_long_year", e.post.v[2] = B01(IsLongYear(y)), B01(IsLongYear(y)))
      \o V("days_in_year", e.post.v[3] = DaysInYear(y), DaysInYear(y)))
-ArrClause(name, arr, n, F(_)) == LET k == FirstDiff(arr, n, F) IN
-   IF k = 0 THEN <<>> ELSE << <<name, <<k, IF k <= n THEN F(k) ELSE -1>> >> >>
 J_year_weekdays(e) == LET y == e.a.y n == DaysInYear(y) IN
    R(<<B(IsLeap(y)), N(Weekday(Ord(y, 1, 1)))>>, ArrClause("week_day", e.post.v, n, LAMBDA k : ExpIsoWeekday(y, k)))
 J_year_getters(e) == LET y == e.a.y n == DaysInYear(y) p == e.post IN
@@ -504,6 +576,9 @@ Judge(e) == CASE e.op = "in_tz" -> J_in_tz(e)
               [] e.op = "copy" -> J_copy(e)
               [] e.op = "range" -> J_range(e)
               [] e.op = "contains" -> J_contains(e)
+              [] e.op = "iso_parse" -> J_iso_parse(e)
+              [] e.op = "iso_year_scan" -> J_iso_year_scan(e)
+              [] e.op = "iso_roundtrip" -> J_iso_roundtrip(e)
               [] e.op = "year_prims" -> J_year_prims(e)
               [] e.op = "year_weekdays" -> J_year_weekdays(e)
               [] e.op = "year_getters" -> J_year_getters(e)
